@@ -357,7 +357,9 @@ func (fv *FuncVC) evalArgs(call *ast.CallExpr, f *types.Func, st *State) (recv *
 			recvT := sig.Recv().Type()
 			_, wantPtr := recvT.Underlying().(*types.Pointer)
 			_, havePtr := types.Unalias(rt).Underlying().(*types.Pointer)
-			if wantPtr && !havePtr && !types.IsInterface(rt) {
+			if cfi := fv.w.ByObj[f.Origin()]; wantPtr && !havePtr && !types.IsInterface(rt) && cfi != nil && cfi.Contract != nil && cfi.Contract.Pure {
+				// pure method with a pointer receiver called on an addressable value: a function of the value
+			} else if wantPtr && !havePtr && !types.IsInterface(rt) {
 				fv.note("implicit address-of for method call %s", fv.text(se))
 				rv = fv.havocVal(st, "recvaddr", recvT)
 			} else if !wantPtr && havePtr && !types.IsInterface(recvT) {
